@@ -118,6 +118,21 @@ func LayoutFamily(thorough bool) []string {
 								cum += len(b.Encode())
 								sizes = append(sizes, cum-1, cum, cum+1)
 							}
+							// Fetch.Max that is not Fetch.Default * 2^k, with the first batch larger than the largest
+							// doubling below the maximum but not larger than the maximum: the consumer must grow the
+							// fetch size to exactly Fetch.Max before it may give up on a partial message
+							if len(bs) > 0 {
+								l := 0
+								for _, b := range bs {
+									if x := len(b.Encode()); x > l {
+										l = x // the largest batch: nothing in this log is legitimately "larger than Fetch.Max"
+									}
+								}
+								if l >= 6 {
+									d := (l + 2) / 3
+									out = append(out, fmt.Sprintf("cons?ver=%s&n=%d&cuts=%d&fmts=%s&codec=%d&start=old&fsz=%d&fmax=%d", vi.v, n, cuts, fl, codec, d, 3*d))
+								}
+							}
 							starts := []string{"old", "new"}
 							for s := 0; s <= n+1; s++ {
 								starts = append(starts, fmt.Sprint(s))
